@@ -15,7 +15,8 @@ SELF_MUT = Rw("R2", r"&self", "&mut self")
 
 
 def AORD(n):
-    return Rw("R2", r"\bOrdering::", "AOrd::", count=n)
+    # purely syntactic (the atomics shim names its orderings AOrd): any number of occurrences
+    return Rw("R2", r"\bOrdering::", "AOrd::", count="any")
 
 
 # spec vocabulary over the extracted BarState / ProgressState
